@@ -160,7 +160,7 @@ def run(facts, rep):
 def _shape_key(t):
     """term printed without call-site ids (stable under line / block renumbering)"""
     import re
-    return re.sub(r'#[0-9.]+', '', show(t))
+    return re.sub(r'#\d+\.\d+', '', show(t))
 
 
 def _ret_where(b, p):
